@@ -2,6 +2,7 @@ package main
 
 import (
 	"fmt"
+	"go/token"
 	"go/types"
 	"sort"
 	"strings"
@@ -160,7 +161,78 @@ func ruleD2(c *Ctx, id string) {
 				R.Check(held, id, key, P.Pos(fa.Instr.Pos()), fmt.Sprintf("%s.%s is accessed with %s.%s held", g.typ, g.field, g.mtype, g.mfield), why, "access without the guarding mutex: races with the other users of this field")
 			}
 		}
+		// a copy of the whole struct reads every guarded field at once (a value receiver on a method of the
+		// protected type copies it at each call, before the method can take the lock)
+		for _, wa := range wholeValueAccesses(fn, func(t types.Type) *types.Named {
+			n, ok := types.Unalias(t).(*types.Named)
+			if !ok || n.Obj().Pkg() == nil {
+				return nil
+			}
+			for _, g := range guardedFields {
+				if n.Obj().Name() == g.typ && strings.HasSuffix(n.Obj().Pkg().Path(), "/"+g.pkg) {
+					return n
+				}
+			}
+			return nil
+		}) {
+			for _, g := range guardedFields {
+				if wa.named.Obj().Name() != g.typ || !strings.HasSuffix(wa.named.Obj().Pkg().Path(), "/"+g.pkg) {
+					continue
+				}
+				held := heldAt(fn, g.mtype, g.mfield)(wa.in)
+				if !held && callersHold(fn, g, 0) {
+					held = true
+				}
+				base := fmt.Sprintf("%s|whole %s (field %s)", FuncName(fn), g.typ, g.field)
+				perKey[base]++
+				key := base
+				if perKey[base] > 1 {
+					key = fmt.Sprintf("%s#%d", base, perKey[base])
+				}
+				R.Check(held, id, key, P.Pos(wa.in.Pos()), fmt.Sprintf("a copy of the whole %s (which reads %s) is made with %s.%s held", g.typ, g.field, g.mtype, g.mfield), "mutex held", fmt.Sprintf("the whole %s is copied without its mutex (e.g. for a call of a value-receiver method): %s is read while other goroutines write it under the lock", g.typ, g.field))
+			}
+		}
 	}
+}
+
+// wholeValueAccesses: loads and stores of a whole value of a named struct type
+// (not of one field) through a pointer that is not a fresh local: "x := *p",
+// "*p = v", and the copy made for a call of a value-receiver method.
+type wholeAccess struct {
+	in    ssa.Instruction
+	named *types.Named
+	store bool
+}
+
+func wholeValueAccesses(fn *ssa.Function, want func(t types.Type) *types.Named) []wholeAccess {
+	var out []wholeAccess
+	for _, b := range fn.Blocks {
+		for _, in := range b.Instrs {
+			switch x := in.(type) {
+			case *ssa.UnOp:
+				if x.Op != token.MUL {
+					continue
+				}
+				if n := want(x.Type()); n != nil {
+					if al, ok := x.X.(*ssa.Alloc); ok && !al.Heap {
+						continue
+					}
+					if rs := x.Referrers(); rs == nil || len(*rs) == 0 {
+						continue // "for i := range arr": go/ssa loads the array, the language does not evaluate it
+					}
+					out = append(out, wholeAccess{in, n, false})
+				}
+			case *ssa.Store:
+				if n := want(x.Val.Type()); n != nil {
+					if _, ok := x.Addr.(*ssa.Alloc); ok {
+						continue // initialisation of a local / of a fresh object
+					}
+					out = append(out, wholeAccess{in, n, true})
+				}
+			}
+		}
+	}
+	return out
 }
 
 func ruleD3(c *Ctx, id string) {
@@ -223,6 +295,73 @@ func ruleD3(c *Ctx, id string) {
 				}
 			}
 			R.Check(atomicOnly || local, id, key, P.Pos(fa.Instr.Pos()), "shared latency counters are accessed atomically", why, "plain read/write of a counter that handlers update concurrently")
+		}
+		// the counters as a whole: assigning or copying an Op, or an array / struct that holds some, is a plain access
+		// to every counter in it
+		var holdsOp func(t types.Type, d int) bool
+		holdsOp = func(t types.Type, d int) bool {
+			if d > 3 {
+				return false
+			}
+			if n, ok := types.Unalias(t).(*types.Named); ok && n == op {
+				return true
+			}
+			switch u := t.Underlying().(type) {
+			case *types.Array:
+				return holdsOp(u.Elem(), d+1)
+			case *types.Struct:
+				for i := 0; i < u.NumFields(); i++ {
+					if holdsOp(u.Field(i).Type(), d+1) {
+						return true
+					}
+				}
+			}
+			return false
+		}
+		for _, wa := range wholeValueAccesses(fn, func(t types.Type) *types.Named {
+			if holdsOp(t, 0) {
+				return op
+			}
+			return nil
+		}) {
+			// a local copy being filled or read (value receiver, snapshot built element by element) is fine
+			var addr ssa.Value
+			if ld, ok := wa.in.(*ssa.UnOp); ok {
+				addr = ld.X
+			} else if st, ok := wa.in.(*ssa.Store); ok {
+				addr = st.Addr
+			}
+			root := addr
+			for {
+				if ia, ok := root.(*ssa.IndexAddr); ok {
+					root = ia.X
+					continue
+				}
+				if f2, ok := root.(*ssa.FieldAddr); ok {
+					root = f2.X
+					continue
+				}
+				break
+			}
+			if al, ok := root.(*ssa.Alloc); ok {
+				if _, isP := derefType(al.Type()).(*types.Pointer); !isP {
+					continue
+				}
+			}
+			if _, isMk := stripConv(root).(*ssa.MakeSlice); isMk {
+				continue
+			}
+			base := fmt.Sprintf("%s|whole Op value", FuncName(fn))
+			perKey[base]++
+			key := base
+			if perKey[base] > 1 {
+				key = fmt.Sprintf("%s#%d", base, perKey[base])
+			}
+			kind := "copied"
+			if wa.store {
+				kind = "assigned"
+			}
+			R.Check(false, id, key, P.Pos(wa.in.Pos()), "shared latency counters are never assigned or copied as a whole", "no whole-value access", "an Op (or an array/struct of them) is "+kind+" with a plain load/store while other goroutines update the counters with sync/atomic: a reset can be lost or a torn total read")
 		}
 	}
 }
